@@ -82,3 +82,64 @@ Proof.
   intros tp rep np mf ls s R. pose proof (job_bound _ _ _ R) as B.
   destruct (mk_cfg_spec tp rep np mf) as [_ [J _]]. exact (Nat.le_trans _ _ _ B J).
 Qed.
+
+(* ------------------------------------------------------------------ the option layer *)
+Theorem parse_jobs_rejects : forall n, (n <= 0)%Z -> parse_jobs n = None.
+Proof. intros n H. unfold parse_jobs. apply Z.leb_le in H. rewrite H. reflexivity. Qed.
+
+Theorem parse_jobs_accepts : forall n, (1 <= n)%Z ->
+  exists j, parse_jobs n = Some j /\ 1 <= j /\ Z.of_nat j = n.
+Proof.
+  intros n H. unfold parse_jobs. assert (E : (n <=? 0)%Z = false) by (apply Z.leb_gt; lia).
+  rewrite E. exists (Z.to_nat n). repeat split; lia.
+Qed.
+
+Theorem worker_count_positive : forall a b cpus, 1 <= determine_worker_count a b cpus.
+Proof.
+  intros a b cpus. unfold determine_worker_count.
+  destruct (env_workers b (env_workers a 0) <=? 0)%Z eqn:E; [lia|]. apply Z.leb_gt in E. lia.
+Qed.
+
+(* from the initial state: with no runner at all, or with at least one job, never stuck *)
+Lemma reachable_never_stuck : forall c, nrun c = 0 \/ 1 <= c_jobs c ->
+  forall ls s, run c (init c) ls = Some s -> terminal c s = true \/ exists l s', exec c s l = Some s'.
+Proof.
+  intros c [Z|J] ls s R; [|apply deadlock_free; assumption].
+  pose proof (run_length_bound c ls s R) as B. rewrite Z in B.
+  destruct ls as [|l ls]; [|simpl in B; lia]. simpl in R. inversion R. subst.
+  left. unfold terminal, init. simpl. rewrite Z. reflexivity.
+Qed.
+
+Lemma mk_cfg_jobs : forall tp rep np mf, 1 <= np ->
+  nrun (mk_cfg tp rep np mf) = 0 \/ 1 <= c_jobs (mk_cfg tp rep np mf).
+Proof.
+  intros tp rep np mf H. destruct (mk_cfg_spec tp rep np mf) as [A _]. rewrite A. simpl.
+  destruct (length tp * rep); [left; reflexivity | right; lia].
+Qed.
+
+(* a non-positive -j is refused before anything runs ... *)
+Theorem cli_rejects_nonpositive : forall tp rep n a b cpus mf, (n <= 0)%Z ->
+  cli_cfg tp rep (Some n) a b cpus mf = Rejected.
+Proof. intros. unfold cli_cfg. rewrite parse_jobs_rejects by assumption. reflexivity. Qed.
+
+(* ... a positive one, or none (whatever the environment variables hold), is accepted ... *)
+Theorem cli_accepts : forall tp rep opt a b cpus mf,
+  (match opt with Some n => (1 <= n)%Z | None => True end) ->
+  exists c, cli_cfg tp rep opt a b cpus mf = Accepted c.
+Proof.
+  intros tp rep [n|] a b cpus mf H; unfold cli_cfg.
+  - destruct (parse_jobs_accepts n H) as [j [E _]]. rewrite E. eauto.
+  - eauto.
+Qed.
+
+(* ... and the scheduler of every accepted command line never gets stuck *)
+Theorem cli_never_stuck : forall tp rep opt a b cpus mf c,
+  cli_cfg tp rep opt a b cpus mf = Accepted c ->
+  forall ls s, run c (init c) ls = Some s -> terminal c s = true \/ exists l s', exec c s l = Some s'.
+Proof.
+  intros tp rep opt a b cpus mf c H. apply reachable_never_stuck. unfold cli_cfg in H.
+  destruct opt as [n|].
+  - unfold parse_jobs in H. destruct (n <=? 0)%Z eqn:E; [discriminate|]. inversion H. subst.
+    apply mk_cfg_jobs. apply Z.leb_gt in E. lia.
+  - inversion H. subst. apply mk_cfg_jobs. apply worker_count_positive.
+Qed.
